@@ -157,7 +157,7 @@ def _build(crate_dir, target_dir, log):
     t0 = time.time()
     if not os.path.exists(os.path.join(crate_dir, "Cargo.lock")) and os.path.exists(os.path.join(REPO, "Cargo.lock")):
         shutil.copy(os.path.join(REPO, "Cargo.lock"), os.path.join(crate_dir, "Cargo.lock"))
-    p = subprocess.run(["cargo", "kani", "--only-codegen", "--target-dir", target_dir], cwd=crate_dir, env=_env(),
+    p = subprocess.run(["cargo", "kani", "--only-codegen", "--target-dir", target_dir, "-Z", "unstable-options", "-Z", "stubbing"], cwd=crate_dir, env=_env(),
                        stdout=subprocess.PIPE, stderr=subprocess.STDOUT, text=True)
     if p.returncode != 0:
         errs = [l for l in p.stdout.splitlines() if l.startswith("error")]
